@@ -128,3 +128,23 @@ Example C07_example_run :
   = [Some (bs "A"); None; Some (bs "X"); Some (bs "R"); None]
   /\ is_some (fs_lookup (bs "a", bs "zz_generated.g1.go") s') = true.
 Proof. vm_compute. split; reflexivity. Qed.
+
+(* ---- the real generators (Model/Generators.v: deepcopy, partialstruct, runtimedoc as instances of the abstract
+   generator, built from the generator models of C17 / C18 / C16): the frame holds of a run with exactly these three,
+   for every type graph, every previous output, every printing of their IR ---- *)
+Require Gengo.Model.Generators Gengo.Proofs.GeneratorsPipe.
+
+Theorem C07_frame_real_generators :
+  forall (E : env) fx graph vis pm fuel fd fs desc pi rfuel cfg tracker tin pg a w s q,
+    ~ own_output E a w s q ->
+    fs_lookup q (exec_fs E a w (Gengo.Proofs.GeneratorsPipe.real_gens fx graph vis pm fuel fd fs desc pi rfuel cfg tracker tin pg) s)
+    = fs_lookup q s.
+Proof. exact Gengo.Proofs.GeneratorsPipe.real_gens_frame. Qed.
+Print Assumptions C07_frame_real_generators.
+
+(* their names are distinct (the hypothesis NoDup (map g_name gens) of the theorems above) *)
+Theorem C07_real_generators_names :
+  forall fx graph vis pm fuel fd fs desc pi rfuel cfg tracker tin pg,
+    NoDup (map g_name (Gengo.Proofs.GeneratorsPipe.real_gens fx graph vis pm fuel fd fs desc pi rfuel cfg tracker tin pg)).
+Proof. exact Gengo.Proofs.GeneratorsPipe.real_gens_names. Qed.
+Print Assumptions C07_real_generators_names.
